@@ -198,6 +198,29 @@ func s6() {
 	vs.Event(fmt.Sprintf("isopen:%v/%v", in.IsOpen(), out.IsOpen()))
 }
 
+// S7: senders overlapping with Close of the out port: every Send returns nil
+// or ErrPortClosed, nothing panics, Close returns.
+func s7() {
+	sc := script(nil, 0)
+	drv, _ := midicatdrv.New()
+	outs, _ := drv.Outs()
+	out := outs[0]
+	vs.Event("open:" + errStr(out.Open()))
+	done := vs.NewChan[int](2)
+	vs.GoNamed("sender", func() {
+		for k := 0; k < 2; k++ {
+			err := out.Send([]byte{0x90, byte(k), 0x40})
+			vs.Event(fmt.Sprintf("send:%d:%s", k, errStr(err)))
+		}
+		done.Send(1)
+	})
+	vs.Event("close:" + errStr(out.Close()))
+	done.Recv()
+	vs.Event(fmt.Sprintf("isopen:%v", out.IsOpen()))
+	got := append([]string(nil), *sc.OutReceived...)
+	vs.Event(fmt.Sprintf("helper-got:%d", len(got)))
+}
+
 func eventsOf(e *vs.Exec, prefix string) []string {
 	var out []string
 	for _, ev := range e.Events {
@@ -310,6 +333,25 @@ func scenarios() []scenario {
 			want := "helper-got:0 900040|0 900140|0 910040"
 			if len(got) != 1 || got[0] != want {
 				return "send:lines", fmt.Sprintf("helper received %v, expected %v", got, want)
+			}
+			return "", ""
+		}},
+		{"S7-send-overlapping-close", s7, func(e *vs.Exec) (string, string) {
+			if s, w := expectSeq(e, []string{"open:", "close:", "isopen:"}, []string{"open:nil", "close:nil", "isopen:false"}); s != "" {
+				return s, w
+			}
+			closed := false
+			for _, ev := range eventsOf(e, "send:") {
+				switch {
+				case strings.HasSuffix(ev, ":nil"):
+					if closed {
+						return "send:accepted-after-refusal", "a Send succeeded after an earlier one was refused: " + fmt.Sprint(eventsOf(e, "send:"))
+					}
+				case strings.HasSuffix(ev, ":ErrPortClosed"):
+					closed = true
+				default:
+					return "send:error", "Send overlapping with Close returned an unexpected error: " + ev
+				}
 			}
 			return "", ""
 		}},
